@@ -174,7 +174,7 @@ def run(ctx):
             t = K.arg_terms(c)[0]
             ia5 = any(x[0] == "call" and x[3].get("name") == "take_from" and any("Ia5CharSet" in g for g in x[3].get("ga", ()))
                       for x in walk(t))
-            return ia5 and re.search(r"(Ia5String|RestrictedString)::take_from\(cons\)", a[0]) is not None
+            return ia5 and re.search(r"(Ia5String|RestrictedString)::take_from\([^()]*\)", a[0]) is not None
         mp = MustPass(f, sink, name="validate_file_name(IA5 bytes)")
         ok = mp.holds(b.name)
         ctx.ob("R-CHK", "FileAndHash::%s→validate_file_name" % which, ok,
@@ -279,8 +279,17 @@ def run(ctx):
         # ---- C14.c thisUpdate <= nextUpdate
         def g(bd, s, bb):
             return K.order_literal_edges(bd, s, bb, r"^Try::branch\(Time::take_from\(cons\)\)↓Continue\.0$", r"^Try::branch\(Time::take_from\(cons\)\)↓Continue\.0$")
-        # both operands render identically; identify by local names instead
+        # both operands render identically (two Time::take_from calls); they are told apart by their role: which field
+        # of the ManifestContent literal each value ends up in
         oc = outcome(mc)
+        roles = {}
+        for bd, bi, si, st in sites:
+            rv = st["rv"]
+            if len(rv.get("fields", ())) == len(rv["ops"]):
+                for fld, op in zip(rv["fields"], rv["ops"]):
+                    pl = op.get("m") or op.get("c")
+                    if pl is not None and not pl["p"] and fld in ("this_update", "next_update"):
+                        roles[_root_local(mc, pl["l"])] = fld
         found = False
         okc = False
         for bi, blk in enumerate(mc.blocks):
@@ -302,11 +311,7 @@ def run(ctx):
             for a in call["args"]:
                 apl = a.get("m") or a.get("c")
                 # &this_update → find the local behind the reference
-                nm = None
-                for dd in mc.defs().get(apl["l"], []):
-                    if dd[2] == "assign" and dd[3]["rv"]["r"] == "ref":
-                        nm = mc.local_name(dd[3]["rv"]["pl"]["l"])
-                names.append(nm)
+                names.append(roles.get(_root_local(mc, apl["l"])) if apl is not None and not apl["p"] else None)
             if set(names) == {"this_update", "next_update"}:
                 found = True
                 rel, _, _, pos = at
@@ -368,6 +373,22 @@ def run(ctx):
         ok = len(cs) == 1 and "SHA256" in K.arg_renders(cs[0])[0] and K.arg_renders(cs[0])[1] == "data"
         ctx.ob("R-FLOW", "DigestAlgorithm::digest=sha256(data)", ok, "DigestAlgorithm::digest is SHA-256 over its argument",
                where=db.loc, detail=K.arg_renders(cs[0]) if cs else None)
+
+
+def _root_local(body, l, depth=0):
+    """The local a temporary is a plain copy / move / reference of."""
+    ds = [d for d in body.defs().get(l, []) if d[2] in ("assign", "call", "yield", "partial")]
+    if depth > 12 or len(ds) != 1 or ds[0][2] != "assign":
+        return l
+    rv = ds[0][3]["rv"]
+    pl = None
+    if rv["r"] == "use":
+        pl = rv["op"].get("m") or rv["op"].get("c")
+    elif rv["r"] == "ref":
+        pl = rv["pl"]
+    if pl is None or any(p[0] != "d" for p in pl["p"]):
+        return l
+    return _root_local(body, pl["l"], depth + 1)
 
 
 def _reachable_fns(f, start, depth=4):
